@@ -123,7 +123,7 @@ pub fn eval(expr: Node) -> Result<i64, Box<dyn error::Error>> {
                 }
                 Ok(factorial_result)
             } else {
-                Ok(0)
+                Err("Factorial of a negative integer".into())
             }
         }
         Abs(sub_expr) => eval(*sub_expr)?.checked_abs().ok_or_else(overflow),
